@@ -41,7 +41,7 @@ import (
 
 func init() {
 	register("c10", runC10)
-	register("c10child", runC10Child)
+	register("c10child", c10ChildMain)
 }
 
 // ---------------------------------------------------------------- stack
@@ -65,10 +65,10 @@ func c10Dirs(dir string) map[string]string {
 	return map[string]string{"d": filepath.Join(dir, "parts"), "c": filepath.Join(dir, "parts-cold")}
 }
 
-// openC10Stack opens (or creates) database + the two filesystem part stores under dir and starts
+// c10OpenStack opens (or creates) database + the two filesystem part stores under dir and starts
 // the part stores the way a process start does (Start is where a start-up recovery would run).
 // The storage's own Start is not used: it would launch the background GC loop.
-func openC10Stack(dir string) *c10Stack {
+func c10OpenStack(dir string) *c10Stack {
 	verifx.Check(os.MkdirAll(dir, 0o755))
 	raw := verifx.Must(sqlite.OpenDatabase(filepath.Join(dir, "pithos.db")))
 	dirs := c10Dirs(dir)
@@ -166,7 +166,7 @@ func (s *c10Store) DeletePart(ctx context.Context, tx database.Tx, id partstore.
 	return err
 }
 
-func runC10Child(args []string) {
+func c10ChildMain(args []string) {
 	fs := flag.NewFlagSet("c10child", flag.ExitOnError)
 	dir := fs.String("dir", "", "state directory")
 	line := fs.String("line", "", "op line")
@@ -176,8 +176,8 @@ func runC10Child(args []string) {
 	b, err := os.ReadFile(filepath.Join(*dir, "state.json"))
 	verifx.Check(err)
 	verifx.Check(json.Unmarshal(b, &stt))
-	stk := openC10Stack(*dir)
-	cap := newC10Capture(filepath.Join(*dir, "child.cap"))
+	stk := c10OpenStack(*dir)
+	cap := c10NewCapture(filepath.Join(*dir, "child.cap"))
 	c := &s3hCase{ctx: context.Background(), st: stk.st, out: cap.out, vids: stt.Vids, bnams: []string{"b0", "b1"},
 		lastEtag: map[string]string{}, lastSize: map[string]int64{}, made: map[string]bool{}}
 	for _, u := range stt.Uids {
@@ -205,7 +205,7 @@ type c10Capture struct {
 	out *verifx.Out
 }
 
-func newC10Capture(path string) *c10Capture {
+func c10NewCapture(path string) *c10Capture {
 	f := verifx.Must(os.Create(path))
 	saved := os.Stdout
 	os.Stdout = f
@@ -245,6 +245,8 @@ func c10Exec(c *s3hCase, cap *c10Capture, line string) (res string) {
 			entries = append(entries, storage.DeleteObjectsInputEntry{Key: storage.MustNewObjectKey(k)})
 		}
 		_, err = c.st.DeleteObjects(c.ctx, B(2), entries)
+		c.learnVids() // delete markers get version ids
+		cap.take()
 	case "uppcp":
 		_, err = c.st.UploadPartCopy(c.ctx, B(2), K(3), B(4), K(5), c.uid(t[6]), atoi32(t[7]), nil)
 	default:
@@ -628,8 +630,8 @@ func runC10(args []string) {
 		out.Case(k, seed)
 
 		// ---- prepare the state in-process
-		stk := openC10Stack(base)
-		cap := newC10Capture(filepath.Join(root, "parent.cap"))
+		stk := c10OpenStack(base)
+		cap := c10NewCapture(filepath.Join(root, "parent.cap"))
 		c := &s3hCase{ctx: ctx, st: stk.st, out: cap.out, vids: map[string]int{}, bnams: []string{"b0", "b1"},
 			lastEtag: map[string]string{}, lastSize: map[string]int64{}, made: map[string]bool{}}
 		var cs c10Case
@@ -684,7 +686,7 @@ func runC10(args []string) {
 			if rawDirFirst {
 				emit("%s rawdir %s", tag, c10DirListing(c10Dirs(work), nm))
 			}
-			s2 := openC10Stack(work)
+			s2 := c10OpenStack(work)
 			emit("%s dir %s", tag, c10DirListing(s2.dirs, nm))
 			emit("%s refs %s", tag, c10Refs(s2, nm, c10PartTable(s2.dirs, nm)))
 			for _, l := range c10Snapshot(ctx, s2.st, nm) {
